@@ -71,3 +71,166 @@ def interp_linear(xnew, x, y, local_mag=False):
         t = (v - x[lo]) / (x[hi] - x[lo])
         out.append(float(y[lo] + t * (y[hi] - y[lo])))
     return out
+
+
+# --------------------------------------------------------------------------------------------
+# linear model helpers and LP / BVLS oracles (scipy HiGHS, active-set BVLS) - never cvxpy, never dreye
+
+
+def transform(A, K, baseline):
+    """(A', base') of the documented model B = K (A x + baseline); K None/scalar/vector/matrix, baseline None/scalar/vector."""
+    A = np.atleast_2d(np.asarray(A, dtype=float))
+    m = A.shape[0]
+    base = np.zeros(m) if baseline is None else np.broadcast_to(np.asarray(baseline, dtype=float), (m,)).astype(float)
+    if K is None:
+        return A.copy(), base.copy()
+    K = np.asarray(K, dtype=float)
+    if K.ndim == 0:
+        return A * float(K), base * float(K)
+    if K.ndim == 1:
+        Kv = np.broadcast_to(K, (m,))
+        return A * Kv[:, None], base * Kv
+    return K @ A, K @ base
+
+
+def bounds_arrays(lb, ub, n):
+    lbv = np.zeros(n) if lb is None else np.broadcast_to(np.asarray(lb, dtype=float), (n,)).astype(float)
+    ubv = np.full(n, np.inf) if ub is None else np.broadcast_to(np.asarray(ub, dtype=float), (n,)).astype(float)
+    return lbv, ubv
+
+
+def _linprog(c, A_ub=None, b_ub=None, A_eq=None, b_eq=None, bounds=None):
+    from scipy.optimize import linprog
+
+    return linprog(c, A_ub=A_ub, b_ub=b_ub, A_eq=A_eq, b_eq=b_eq, bounds=bounds, method="highs")
+
+
+def lp_margin(Ap, basep, lb, ub, b):
+    """max t s.t. A'x + base' = b, lb + t r <= x <= ub - t r (r = half range); finite bounds only.
+    t* >= tau > 0  <=> strictly inside; returns None when the equality system has no in-bound solution even for t -> -inf
+    is not possible (t is free), so None means the equality itself is infeasible (flat gamut / inconsistent)."""
+    Ap = np.atleast_2d(Ap)
+    m, n = Ap.shape
+    r = (ub - lb) / 2.0
+    # variables [x, t]; maximise t
+    c = np.zeros(n + 1)
+    c[-1] = -1.0
+    A_eq = np.hstack([Ap, np.zeros((m, 1))])
+    b_eq = np.asarray(b, dtype=float) - basep
+    # x - ub + t r <= 0 ; -x + lb + t r <= 0
+    A_ub = np.vstack([np.hstack([np.eye(n), r[:, None]]), np.hstack([-np.eye(n), r[:, None]])])
+    b_ub = np.concatenate([ub, -lb])
+    res = _linprog(c, A_ub=A_ub, b_ub=b_ub, A_eq=A_eq, b_eq=b_eq, bounds=[(None, None)] * n + [(None, 1.0)])
+    if res.status == 0:
+        return float(res.x[-1])
+    return None
+
+
+def lp_dist(Ap, basep, lb, ub, b):
+    """min over in-bound x of || A'x + base' - b ||_inf  (works for ub = inf, flat gamuts); returns (d, x)."""
+    Ap = np.atleast_2d(Ap)
+    m, n = Ap.shape
+    c = np.zeros(n + 1)
+    c[-1] = 1.0
+    rhs = np.asarray(b, dtype=float) - basep
+    A_ub = np.vstack([np.hstack([Ap, -np.ones((m, 1))]), np.hstack([-Ap, -np.ones((m, 1))])])
+    b_ub = np.concatenate([rhs, -rhs])
+    bnds = [(float(l), (None if not np.isfinite(u) else float(u))) for l, u in zip(lb, ub)] + [(0.0, None)]
+    res = _linprog(c, A_ub=A_ub, b_ub=b_ub, bounds=bnds)
+    if res.status != 0:
+        raise RuntimeError(f"lp_dist failed: status {res.status} {res.message}")
+    return float(res.x[-1]), np.asarray(res.x[:-1])
+
+
+def lp_extents(Ap, basep, lb, ub, b):
+    """per-source min and max of x over {A'x + base' = b, lb <= x <= ub}; None if infeasible."""
+    Ap = np.atleast_2d(Ap)
+    m, n = Ap.shape
+    rhs = np.asarray(b, dtype=float) - basep
+    bnds = [(float(l), (None if not np.isfinite(u) else float(u))) for l, u in zip(lb, ub)]
+    mins, maxs = np.zeros(n), np.zeros(n)
+    for k in range(n):
+        c = np.zeros(n)
+        c[k] = 1.0
+        r1 = _linprog(c, A_eq=Ap, b_eq=rhs, bounds=bnds)
+        r2 = _linprog(-c, A_eq=Ap, b_eq=rhs, bounds=bnds)
+        if r1.status != 0 or r2.status != 0:
+            return None
+        mins[k], maxs[k] = r1.x[k], r2.x[k]
+    return mins, maxs
+
+
+def lp_sum_extreme(Ap, basep, lb, ub, b, maximize=False):
+    """min / max of sum(x) over {A'x + base' = b, box}."""
+    Ap = np.atleast_2d(Ap)
+    n = Ap.shape[1]
+    rhs = np.asarray(b, dtype=float) - basep
+    bnds = [(float(l), (None if not np.isfinite(u) else float(u))) for l, u in zip(lb, ub)]
+    c = -np.ones(n) if maximize else np.ones(n)
+    r = _linprog(c, A_eq=Ap, b_eq=rhs, bounds=bnds)
+    if r.status != 0:
+        return None
+    return float(np.sum(r.x)), np.asarray(r.x)
+
+
+def bvls(Ap, basep, lb, ub, b, w=None):
+    """bounded weighted least squares optimum by the active-set BVLS solver: returns (x, weighted residual norm)."""
+    from scipy.optimize import lsq_linear
+
+    Ap = np.atleast_2d(Ap)
+    w = np.ones(Ap.shape[0]) if w is None else np.asarray(w, dtype=float)
+    M = Ap * w[:, None]
+    y = (np.asarray(b, dtype=float) - basep) * w
+    res = lsq_linear(M, y, bounds=(lb, ub), method="bvls", tol=1e-14, max_iter=2000)
+    x = np.asarray(res.x)
+    return x, float(np.linalg.norm(M @ x - y))
+
+
+def hull_dist(P, b):
+    """min over convex weights lam of || lam P - b ||_inf for an explicit point cloud P (rows); returns (d, lam)."""
+    P = np.atleast_2d(np.asarray(P, dtype=float))
+    k, d = P.shape
+    c = np.zeros(k + 1)
+    c[-1] = 1.0
+    b = np.asarray(b, dtype=float)
+    A_ub = np.vstack([np.hstack([P.T, -np.ones((d, 1))]), np.hstack([-P.T, -np.ones((d, 1))])])
+    b_ub = np.concatenate([b, -b])
+    A_eq = np.hstack([np.ones((1, k)), np.zeros((1, 1))])
+    res = _linprog(c, A_ub=A_ub, b_ub=b_ub, A_eq=A_eq, b_eq=[1.0], bounds=[(0, None)] * (k + 1))
+    if res.status != 0:
+        raise RuntimeError(f"hull_dist failed: {res.message}")
+    return float(res.x[-1]), np.asarray(res.x[:-1])
+
+
+def hull_weight_margin(P, b):
+    """max t s.t. sum lam_i P_i = b, sum lam = 1, lam_i >= t.  t* > 0 <=> b in the relative interior of hull(P);
+    None when b is not in the hull at all."""
+    P = np.atleast_2d(np.asarray(P, dtype=float))
+    k, d = P.shape
+    c = np.zeros(k + 1)
+    c[-1] = -1.0
+    A_eq = np.vstack([np.hstack([P.T, np.zeros((d, 1))]), np.hstack([np.ones((1, k)), np.zeros((1, 1))])])
+    b_eq = np.concatenate([np.asarray(b, dtype=float), [1.0]])
+    A_ub = np.hstack([-np.eye(k), np.ones((k, 1))])
+    res = _linprog(c, A_ub=A_ub, b_ub=np.zeros(k), A_eq=A_eq, b_eq=b_eq, bounds=[(None, None)] * k + [(None, 1.0)])
+    if res.status != 0:
+        return None
+    return float(res.x[-1])
+
+
+def ray_scale(Ap, basep, lb, ub, b):
+    """chromatic membership: max s and min s with A'x + base' = s b, x in the box; None if no s works."""
+    Ap = np.atleast_2d(Ap)
+    m, n = Ap.shape
+    b = np.asarray(b, dtype=float)
+    A_eq = np.hstack([Ap, -b[:, None]])
+    b_eq = -basep
+    bnds = [(float(l), (None if not np.isfinite(u) else float(u))) for l, u in zip(lb, ub)] + [(0.0, None)]
+    c = np.zeros(n + 1)
+    c[-1] = -1.0
+    r = _linprog(c, A_eq=A_eq, b_eq=b_eq, bounds=bnds)
+    if r.status == 3:  # unbounded
+        return np.inf
+    if r.status != 0:
+        return None
+    return float(r.x[-1])
